@@ -608,6 +608,15 @@ def _gen_one_cube_case(rng, nrng, kind, cid, magnitude=False, frng=None):
     shortcuts = sorted(rng.sample(range(nagg), nshort))
     # FORM of every argument (content unchanged): memory layout / read-only flag of the fact, weights and validity
     # arrays and of the dimension arrays, integer dtype of the dimension arrays, NumPy-scalar N, tuple of aggregates
+    # lists that mention the SAME aggregate object twice / three times (relation inside one argument)
+    rr = frng if frng is not None else rng
+    j0 = rr.randrange(nagg)
+    repeats = [[j0, j0]]
+    if nagg > 1:
+        j1 = rr.choice([j for j in range(nagg) if j != j0])
+        repeats.append(rr.choice([[j0, j1, j0], [j1, j0, j0], [j0, j0, j1, j0]]))
+    elif rr.random() < 0.5:
+        repeats.append([j0, j0, j0])
     forms = {"arrays": {}, "dims": [], "dimsB": [], "N": {}, "aggs_seq": "list"}
     if frng is not None and _forms is not None:
         for name in sorted(pool.arrays):
@@ -628,6 +637,7 @@ def _gen_one_cube_case(rng, nrng, kind, cid, magnitude=False, frng=None):
             forms["aggs_seq"] = "tuple"
     return {
         "forms": forms,
+        "repeats": repeats,
         "magnitude": bool(magnitude),
         "kind": kind,
         "id": cid,
@@ -984,6 +994,34 @@ def run_cube_case(catii, case):
                 add("order-dependence:calculate", "calculate(perm %s)[%d] != calculate(all)[%d] (%s): %s" % (perm, k, j, clsnames[j], _res_diff(r_all[j], r_p[k])), agg=j)
                 break
     stats["steps"].append("f")
+
+    # ---- f2. the SAME aggregate object at several positions of one list
+    for rp in case.get("repeats", []):
+        if not rp or max(rp) >= len(aggs):
+            continue
+        st, r_r = _call(cube.calculate, b.aggs_seq(aggs[j] for j in rp))
+        stats["calls"] += 1
+        ch = watch.check()
+        if ch:
+            add("arg-mutated:%s.calculate" % kind, "%s.calculate(list mentioning one object twice, positions %s): %s" % (kind, rp, "; ".join(ch[:2])))
+        if st == "exc":
+            add("order-dependence:calculate", "calculate(%s) with a repeated aggregate object raises %s" % (rp, r_r))
+            continue
+        for k, j in enumerate(rp):
+            if not _snap_eq(r_r[k], r_all[j]):
+                add("order-dependence:calculate", "calculate(aggs%s)[%d] != calculate([aggs[%d]])[0] (%s mentioned %d times): %s" % (
+                    rp, k, j, clsnames[j], rp.count(j), _res_diff(r_all[j], r_r[k])), agg=j)
+                break
+        grp = [arrays_in(r) for r in r_r]
+        for (k1, a1), (k2, a2) in itertools.combinations(enumerate(grp), 2):
+            if _any_share(a1, a2):
+                add("result-aliases-arg:calculate", "calculate(aggs%s): results %d and %d share memory" % (rp, k1, k2))
+                break
+        s_now = snapshot(r_all)
+        if s_now != r_all_snap:
+            add("earlier-result-modified:calculate", "first result changed by calculate(aggs%s)" % (rp,))
+            r_all_snap = s_now
+    stats["steps"].append("f2")
 
     # ---- g. re-use on another cube, then back
     stB, cubeB = _call(b.cube_cls, b.dimsB)
@@ -1398,7 +1436,7 @@ _METHOD_WEIGHTS = [
     ("common_rowids", 3), ("copy", 3), ("filtered", 4), ("sliced", 4), ("reindexed", 7),
     ("slices1d", 3), ("collapsed", 5), ("column_stack", 7), ("__eq__", 3), ("__ne__", 3),
     ("abscissae", 1), ("size", 1), ("sparsity", 1), ("nbytes", 1), ("ndim", 1),
-    ("__str__", 1), ("__repr__", 1),
+    ("__str__", 1), ("__repr__", 1), ("append", 4),
 ]
 _METHODS_3D = ["sliced", "sliced", "slices1d", "slices1d", "copy", "to_dict", "items", "get", "size", "ndim", "sparsity", "nbytes", "__str__"]
 
@@ -1432,6 +1470,11 @@ def _gen_call(rng, nrng, method, N, tail, domain):
             call["kwargs2"] = {"dtype": _py("<f8" if form != "plain" else "<i8")}
     elif method == "from_array":
         call["how"] = "classmethod"
+        # values from a domain of up to 8 categories and enough rows for the >= 5 distinct values the
+        # where/loop heuristic needs; counts= (re-used by the second call of the case) with and without mapping / common
+        if rng.random() < 0.6:
+            domain = list(range(0, rng.choice([5, 6, 8])))
+            N = rng.choice([N, 12, 20, 30]) if N else N
         a = _gen_index_array(rng, nrng, (N,) + tail, domain)
         call["args"] = [{"t": "arr", **enc_arr(a)}]
         kw = {}
@@ -1546,6 +1589,11 @@ def _gen_call(rng, nrng, method, N, tail, domain):
             call["kwargs"] = {"copy": _py(False)}
         elif form == "both-pos":
             call["args"] += [_py(rng.choice([None] + list(domain))), _py(rng.random() < 0.5)]
+    elif method == "append":
+        # mutating by design: the OPERAND is what must stay untouched; it is re-used on a second receiver
+        n2 = rng.choice([1, 2, 4, 7, 12])
+        call["args"] = [_enc_index(rng, nrng, (n2,) + tail, domain, common=call.pop("_common", "maybe"))]
+        call["mutating"] = True
     elif method in ("__eq__", "__ne__"):
         call["how"] = "op"
         r = rng.random()
@@ -1593,6 +1641,12 @@ def _assign_forms(frng, e, tags, top=True):
         tags.append("scalar:" + e["form"])
 
 
+def _gen_call_append(rng, nrng, N, tail, domain, common):
+    n2 = rng.choice([1, 2, 4, 7, 12])
+    return {"method": "append", "how": "method", "kwargs": {}, "mutating": True,
+            "args": [_enc_index(rng, nrng, (n2,) + tail, domain, common=common)]}
+
+
 def gen_index_cases(rng, tier="quick"):
     """One non-mutating method call per case (quick ~300, thorough ~3000)."""
     n = 300 if tier == "quick" else 3000
@@ -1624,7 +1678,12 @@ def gen_index_cases(rng, tier="quick"):
         hist = []
         if not is3d:
             hist, N = _gen_history(rng, nrng, N, tail, domain)
-        call = _gen_call(rng, nrng, method, N, tail, domain)
+        if method == "append" and rng.random() < 0.7:
+            c0 = rng.choice(domain)
+            base["common"] = c0
+            call = _gen_call_append(rng, nrng, N, tail, domain, c0)
+        else:
+            call = _gen_call(rng, nrng, method, N, tail, domain)
         tags = []
         for key in ("args", "args2"):
             for e in call.get(key, []):
@@ -1718,6 +1777,30 @@ def run_index_case(catii, case):
             stats["rejected"] = 0
             del _RO_EVENTS[:]
         return {"findings": findings, "stats": stats}
+
+    if call.get("mutating"):
+        # receiver.append(operand): the receiver changes by design, the OPERAND must not; the same operand object
+        # is then appended a second time to an identical second receiver (operand re-used across calls / receivers)
+        opw = _Watch()
+        opw.add("operand", [b.args, b.kwargs])
+        pristine = build_index_case(catii, case)
+        stp, _ = _call(_do_index_call, catii, call, pristine.idx, pristine.args, pristine.kwargs)
+        want = snapshot(pristine.idx) if stp == "ok" else None
+        for nth, recv in enumerate([idx, build_index_case(catii, case).idx]):
+            st, _ = _call(_do_index_call, catii, call, recv, b.args, b.kwargs)
+            stats["calls"] += 1
+            ch = opw.check()
+            if ch:
+                add("arg-mutated", "%s (operand, %s receiver): %s" % (_call_text(call), ["first", "second"][nth], "; ".join(ch[:2])))
+            if st != stp:
+                add("reuse-differs", "%s with an operand that was appended before: %s, with a new operand: %s" % (_call_text(call), st, stp))
+            elif st == "ok" and snapshot(recv) != want:
+                add("reuse-differs", "%s: receiver after appending a RE-USED operand differs from appending a new one: %s" % (
+                    _call_text(call), "; ".join(diff(want, snapshot(recv), "receiver")[:3])))
+        if stp == "exc":
+            stats["rejected"] = 1
+        watch.compared += opw.compared
+        return done()
 
     st, r1 = _call(_do_index_call, catii, call, idx, b.args, b.kwargs)
     stats["calls"] += 1
@@ -2003,6 +2086,7 @@ def _drop_agg(case, j):
     del c["aggs"][j]
     c["perm"] = [p - (p > j) for p in c.get("perm", []) if p != j]
     c["shortcuts"] = [p - (p > j) for p in c.get("shortcuts", []) if p != j]
+    c["repeats"] = [[p - (p > j) for p in rp] for rp in c.get("repeats", []) if j not in rp]
     used = set()
     for a in c["aggs"]:
         for r in (a.get("fact"), a.get("weights")):
